@@ -1,5 +1,6 @@
 import DarkluaModel.C07.Model
-import DarkluaModel.C07.VisitEqs
+import DarkluaModel.C07.Basic
+
 /-!
 # C07 — the generic coverage theorem for the visitor
 
